@@ -586,10 +586,18 @@ static void doParse(std::stringstream &ss) {
   pr.a.clear();
 }
 
+static bool g_observe_before_dump = false;
 static void doGen(std::stringstream &ss) {
   std::string mainf;
   auto files = readFiles(ss, mainf);
   CodegenResult cr = compile(files, mainf);
+  if (g_observe_before_dump) {
+    // what a front end does with a fresh result before using it: list the code, ask for the available locations
+    std::ostringstream sink;
+    cr.code.disassemble(sink);
+    (void)cr.code.getAvailableBreakpoints();
+    cr.code.disassemble(sink);
+  }
   std::string errs;
   for (size_t i = 0; i < cr.errors.size(); i++) {
     if (i) errs += ",";
@@ -1023,6 +1031,11 @@ static void *mainLoop(void *) {
       doGen(ss);
     else if (cmd == "GENN")
       doGenN(ss);
+    else if (cmd == "GEND") {
+      g_observe_before_dump = true;
+      doGen(ss);
+      g_observe_before_dump = false;
+    }
     else if (cmd == "LR")
       doLR(ss);
     else if (cmd == "DETECT")
